@@ -9,6 +9,8 @@ set -u
 rm -rf "$W"; cp -a "$P" "$W" || exit 3
 LOG=/tmp/vs_$ID.log; : > "$LOG"
 ( cd "$W" && git apply "$SRC/patch.diff" ) >> "$LOG" 2>&1 || { echo "$ID: patch does not apply"; exit 3; }
+# the in-tree build has no dependency tracking for the private headers: a header change needs a clean rebuild of library and tests
+if grep -q '^+++ b/.*\.h$' "$SRC/patch.diff"; then make -s -C "$W/src" clean >> "$LOG" 2>&1; make -s -C "$W/tests" clean >> "$LOG" 2>&1; fi
 make -s -C "$W/src" >> "$LOG" 2>&1 || { echo "$ID: changed tree does not build"; exit 3; }
 ( cd "$W" && make -k check > /tmp/vs_$ID.check 2>&1 ); FAILS=$(grep -c "^FAIL\|^ERROR" /tmp/vs_$ID.check); PASS=$(grep -c "^PASS" /tmp/vs_$ID.check)
 echo "suite: pass=$PASS fail=$FAILS" >> "$LOG"
